@@ -334,6 +334,29 @@ func init() {
 		return ret(f, retTo, nil)
 	}
 
+	// ---- sync/atomic.Value: struct{ v any }; the field holds the stored interface value directly
+	atomicValueField := func(ex *Exec, st *State, recv Value) Ptr {
+		p := recv.(Ptr)
+		return Ptr{Obj: p.Obj, Path: pathAppend(p.Path, 0)}
+	}
+	intrinsics["(*sync/atomic.Value).Load"] = func(ex *Exec, st *State, f *Frame, fn FuncV, args []Value, retTo ssa.Value, instr ssa.Instruction) bool {
+		ex.checkNil(st, args[0].(Ptr), instr)
+		return ret(f, retTo, ex.load(st, atomicValueField(ex, st, args[0]), instr))
+	}
+	intrinsics["(*sync/atomic.Value).Store"] = func(ex *Exec, st *State, f *Frame, fn FuncV, args []Value, retTo ssa.Value, instr ssa.Instruction) bool {
+		ex.checkNil(st, args[0].(Ptr), instr)
+		if v, ok := args[1].(Iface); ok && v.T == nil {
+			ex.throwRuntime(st, "atomic", "sync/atomic: store of nil value into Value", instr)
+		}
+		ex.store(st, atomicValueField(ex, st, args[0]), args[1], instr)
+		return ret(f, retTo, nil)
+	}
+	intrinsics["(*sync/atomic.Value).Swap"] = func(ex *Exec, st *State, f *Frame, fn FuncV, args []Value, retTo ssa.Value, instr ssa.Instruction) bool {
+		p := atomicValueField(ex, st, args[0])
+		old := ex.load(st, p, instr)
+		ex.store(st, p, args[1], instr)
+		return ret(f, retTo, old)
+	}
 	// ---- sync/atomic
 	for _, ty := range []string{"Int32", "Int64", "Uint32", "Uint64", "Uintptr", "Pointer"} {
 		intrinsics["sync/atomic.Load"+ty] = func(ex *Exec, st *State, f *Frame, fn FuncV, args []Value, retTo ssa.Value, instr ssa.Instruction) bool {
